@@ -1419,7 +1419,9 @@ fn rule_c12(ctx: &Ctx, out: &mut Vec<Violation>) {
                 let side = if st.close_req.map(|(s, _)| s < dinv).unwrap_or(false) { "request side closed" } else { "request side open" };
                 match &st.end {
                     Some((es, _, _)) if *es < dinv => continue, // ended before the delete
-                    Some((_, _, StreamEnd::Dropped)) => continue,
+                    // dropped by its client before the barrier (a stream that was still open at the
+                    // barrier and was dropped later, e.g. by the final drain, was not released)
+                    Some((es, _, StreamEnd::Dropped)) if *es < barrier.seq => continue,
                     Some((es, _, StreamEnd::Status(NOT_FOUND, _))) if *es < barrier.seq => {}
                     // a control message of this stream was on its way when the subscription went:
                     // that request raced the deletion and may fail with another error status, which
